@@ -53,6 +53,11 @@ type vecCase struct {
 	Mod  outcome         `json:"mod"`
 	Sub  []subNode       `json:"sub"`
 	Wire outcome         `json:"wire"` // chain vectors: the model's serialized form
+	// path vectors (C17)
+	Good  *cz.Value `json:"good"`
+	Path  []string  `json:"path"`
+	Fault string    `json:"fault"`
+	Key   string    `json:"key"`
 	Emb  string          `json:"emb,omitempty"` // replay: restrict to one embedding
 	Raw  json.RawMessage `json:"-"`
 }
@@ -807,6 +812,12 @@ func handle(raw json.RawMessage) any {
 		}
 		if c.Op == "chain" {
 			return runChain(&c)
+		}
+		if c.Op == "path_unser" || c.Op == "path_valid" {
+			if c.Good == nil {
+				return map[string]any{"harness_error": "path vector without the valid input"}
+			}
+			return runPath(&c)
 		}
 		return runVector(&c)
 	case "deep":
